@@ -106,6 +106,16 @@ class Result(object):
                 'log_hash': log_hash(self.log)}
 
 
+def merge_stats(into, stats):
+    """Counters add up, except keys starting with 'max-' (maxima)."""
+
+    for key, value in stats.items():
+        if key.startswith('max-'):
+            into[key] = max(into.get(key, 0), value)
+        else:
+            into[key] += value
+
+
 def log_hash(log):
     h = hashlib.sha256()
 
@@ -141,7 +151,7 @@ def _work(chunk):
             return {'harness': 'item {}: {}'.format(
                 json.dumps(item)[:200], traceback.format_exc())}
 
-        out.stats.update(result.stats)
+        merge_stats(out.stats, result.stats)
         out.violations.extend(result.violations[:3])
         out.merge_distinct(result.distinct.items())
         out.ticks += result.ticks
@@ -399,7 +409,7 @@ def main(engine, argv=None):
 
     for index in sorted(results):
         data = results[index]
-        agg.stats.update(data['stats'])
+        merge_stats(agg.stats, data['stats'])
         agg.violations.extend(data['violations'])
         agg.merge_distinct(data['distinct'])
         agg.ticks += data['ticks']
